@@ -30,6 +30,7 @@ func runC13Free(tb ev.TB, p concProg) ev.Result {
 	}
 	for r := 0; r < rep; r++ {
 		s := setup(tb, &p)
+		s.free = true
 		for _, th := range p.Threads {
 			for _, op := range th {
 				if op.Kind == "joinbounded" {
@@ -49,7 +50,7 @@ func runC13Free(tb ev.TB, p concProg) ev.Result {
 				defer wg.Done()
 				<-start
 				for oi, op := range ops {
-					mut := op.Kind == "append" || op.Kind == "joinin" || op.Kind == "joinbounded" || op.Kind == "joinbad" || op.Kind == "setid"
+					mut := op.Kind == "append" || op.Kind == "joinin" || op.Kind == "joinbounded" || op.Kind == "joinbad" || op.Kind == "setid" || op.Kind == "iterstream"
 					t0 := time.Now()
 					if mut {
 						n := atomic.AddInt32(&running, 1)
